@@ -903,6 +903,19 @@ func (ms *modScan) contractModsAt(fn *ssa.Function, cc *ssa.CallCommon, tgt call
 	}
 	var out []pm
 	addTargets := func(m Expr) {
+		// `*p` where the actual argument is an object allocated inside the loop
+		if u, isU := m.(*EUnary); isU && u.Op == "*" {
+			if id, isId := u.X.(*EIdent); isId && tgt.fn != nil {
+				for pi, prm := range tgt.fn.Params {
+					if prm.Name() == id.Name && pi < len(cc.Args) && ms.isFreshBase(cc.Args[pi]) {
+						for _, hv := range ms.fx.staticModTargets(m, tgt.fc, tgt.fn) {
+							ms.addAt(hv.name, hv.sort, true, "")
+						}
+						return
+					}
+				}
+			}
+		}
 		switch x := m.(type) {
 		case *EField:
 			b := env.eval(x.X)
@@ -976,11 +989,62 @@ func (ms *modScan) monitorMods(cc *ssa.CallCommon, key string) {
 	if mon == nil {
 		return
 	}
+	owner := ""
+	if ms.st != nil {
+		if _, ov, ok := fx.monitorOfValue(cc.Args[0]); ok {
+			if t, inv := ms.invariantVal(ms.topFn, ov); inv {
+				owner = t
+			}
+		}
+	}
 	for _, g := range mon.guardExprs(fx) {
+		if owner != "" {
+			if pts, ok := ms.guardPoints(mon, g, owner); ok {
+				for _, p := range pts {
+					ms.addAt(p.name, p.sort, false, p.pt)
+				}
+				continue
+			}
+		}
 		for _, hv := range fx.staticModTargetsTyped(g, map[string]types.Type{mon.Owner: mon.ownerType(fx)}, fx.P.TypesPkgs[mon.Pkg]) {
 			ms.add(hv.name, hv.sort, false)
 		}
 	}
+}
+
+type pointMod struct {
+	name, sort string
+	pt         Term
+}
+
+// guardPoints evaluates one guard lvalue of a monitor for a fixed owner.
+func (ms *modScan) guardPoints(mon *Monitor, g Expr, owner Term) (out []pointMod, ok bool) {
+	defer func() {
+		if r := recover(); r != nil {
+			ok = false
+		}
+	}()
+	fx := ms.fx
+	env := fx.monitorEnv(ms.st, mon, owner)
+	switch x := g.(type) {
+	case *EField:
+		b := env.eval(x.X)
+		pt, _ := derefType(b.typ)
+		_, f := findField(pt.Underlying().(*types.Struct), x.Name)
+		return []pointMod{{heapNameForField(pt, x.Name), arrOf(fx.sortOf(f.Type())), b.t}}, true
+	case *ECall:
+		switch x.Fn {
+		case "map":
+			mv := env.eval(x.Args[0])
+			ks, vs, _ := env.mapSorts(mv)
+			return []pointMod{{mapInName(ks, vs), "(Array Int (Array " + ks + " Bool))", mv.t}, {mapValName(ks, vs), "(Array Int (Array " + ks + " " + vs + "))", mv.t}, {"MapLen", arrOf("Int"), mv.t}}, true
+		default:
+			if gd, isG := fx.P.Specs.Ghosts[x.Fn]; isG && len(gd.Args) >= 1 {
+				return []pointMod{{"ghost." + x.Fn, fx.ghostSort(gd), env.eval(x.Args[0]).t}}, true
+			}
+		}
+	}
+	return nil, false
 }
 
 type heapVarRef struct{ name, sort string }
